@@ -1,4 +1,4 @@
-(* C05: the choice of "," ";" or "\" between the arguments of a call - independently at every call of a formula, at any
+(* C05: the choice of "," ";" or "\" between the arguments of a call - independently at every call and every array literal of a formula, at any
    depth - never changes the outcome: the record and the events returned by Parser.parse are those of the expression with
    its separators erased (Proofs/LRfull.v covers the three separators). *)
 From HX Require Import Model.Base Model.Lexer Model.Value Model.Operators Model.Interp Proofs.LRcert Proofs.LRvalue Proofs.LRfull.
@@ -7,6 +7,7 @@ Open Scope Z_scope.
 Fixpoint erase (e : expr) : expr :=
   match e with
   | XCall _ n args => XCall SComma n (map erase args)
+  | XArr _ items => XArr SComma (map erase items)
   | XNeg e => XNeg (erase e)
   | XBin b l r => XBin b (erase l) (erase r)
   | XPar e => XPar (erase e)
@@ -20,9 +21,10 @@ Proof.
 Qed.
 Theorem separators_erased h : forall e, xval h (erase e) = xval h e.
 Proof.
-  induction e as [d|ip fp|fp|pn|pa pb|str|xe|n|k lab|k1 l1 k2 l2|sp name args IHargs|e IH|b l r IHl IHr|e IH] using expr_ind';
+  induction e as [d|ip fp|fp|pn|pa pb|str|xe|n|k lab|k1 l1 k2 l2|sp name args IHargs|sp items IHitems|e IH|b l r IHl IHr|e IH] using expr_ind';
     cbn [erase xval]; try reflexivity.
   - rewrite (xvals_map h args IHargs). reflexivity.
+  - rewrite (xvals_map h items IHitems). reflexivity.
   - rewrite IH. reflexivity.
   - rewrite IHl. apply ebind_ext. intros lv. rewrite IHr. reflexivity.
   - exact IH.
@@ -41,3 +43,18 @@ Example separators_example :
   erase e = erase e' /\ xwp e /\ xwp e' /\
   lex [70;40;49;59;71;40;50;92;51;41;59;120;41] = LexOk (xtoks e) /\ lex [70;40;49;44;71;40;50;44;51;41;44;120;41] = LexOk (xtoks e').
 Proof. cbn [erase map]. repeat split; try exact I; vm_compute; reflexivity. Qed.
+
+(* an array literal written with one separator kind is the flat list of the values of its items, in order - any number
+   of items, each an arbitrary expression of the reference grammar, with any of the three separators *)
+Theorem array_is_flat_list h sp items vs evs : xvals (xval h) items = (ROk vs, evs) ->
+  xval h (XArr sp items) = (ROk (VList vs), evs).
+Proof. intros H. cbn [xval]. rewrite H. cbn [ebind]. rewrite app_nil_r. reflexivity. Qed.
+Theorem array_literal_parsed h s sp items vs evs : s <> [] -> lex s = LexOk (xtoks (XArr sp items)) -> xwp (XArr sp items) ->
+  xvals (xval h) items = (ROk vs, evs) -> parse_formula h s = (PResult (VList vs), evs).
+Proof.
+  intros Hs Hl Hw H. rewrite (parse_formula_expr h s _ Hs Hl Hw), (array_is_flat_list h sp items vs evs H). reflexivity.
+Qed.
+Example array_example :
+  let e := XArr SBack [XNum [49]; XBin Plus (XNum [50]) (XNum [51]); XArr SSemi [XStr [34;97;34]; XVar [120]]] in
+  xwp e /\ lex [123;49;92;50;43;51;92;123;34;97;34;59;120;125;125] = LexOk (xtoks e).
+Proof. split; [cbn; tauto|vm_compute; reflexivity]. Qed.
